@@ -298,4 +298,212 @@ example : Spec.cmpVal (pt f1 f2) (pt f1 fm1) = cmpKey (pt f1 f2) (pt f1 fm1) :=
   cmpVal_eq_cmpKey env_flagsOk (K := tPt) (by decide)
     (by ty_eval [tPt, pt, f1, f2, env]) (by ty_eval [tPt, pt, f1, fm1, env])
 
+/-! ## 5. a single difference decides, in the natural way -/
+
+/-- `false < true` -/
+theorem cmpVal_bool_lt :
+    Spec.cmpVal (.bool false) (.bool true) = -1 ∧ Spec.cmpVal (.bool true) (.bool false) = 1 := by
+  constructor <;> simp [cmpVal_bool, cmpBool]
+
+example : Spec.cmpVal (.bool false) (.bool true) = -1 := cmpVal_bool_lt.1
+
+/-- integers (of every kind) by numeric `<` -/
+theorem cmpVal_int_lt (a b : Int) :
+    (Spec.cmpVal (.int a) (.int b) = -1 ↔ a < b) ∧ (Spec.cmpVal (.int a) (.int b) = 0 ↔ a = b) ∧
+    (Spec.cmpVal (.int a) (.int b) = 1 ↔ b < a) := by
+  rw [cmpVal_int]; exact ⟨cmpInt_eq_neg_one, cmpInt_eq_zero, cmpInt_eq_one⟩
+
+example : Spec.cmpVal (.int (-3)) (.int 5) = -1 := (cmpVal_int_lt (-3) 5).1.2 (by decide)
+
+/-- floats by IEEE `<` (`fltLt`), equal exactly on IEEE `==` (`fltEq`, so `+0 = -0`) -/
+theorem cmpVal_flt_lt (w a b : Nat) :
+    (fltLt w a b = true → Spec.cmpVal (.flt w a) (.flt w b) = -1) ∧
+    (fltEq w a b = true ↔ Spec.cmpVal (.flt w a) (.flt w b) = 0) ∧
+    (fltLt w b a = true → Spec.cmpVal (.flt w a) (.flt w b) = 1) := by
+  rw [cmpVal_flt]; exact ⟨cmpFlt_of_lt, cmpFlt_eq_zero.symm, cmpFlt_of_gt⟩
+
+/-- `-1.0 < +0.0`, and `-0.0` compares 0 with `+0.0` -/
+example : Spec.cmpVal (.flt 64 fm1) (.flt 64 f0) = -1 ∧ Spec.cmpVal (.flt 64 fm0) (.flt 64 f0) = 0 :=
+  ⟨(cmpVal_flt_lt 64 fm1 f0).1 (by decide), (cmpVal_flt_lt 64 fm0 f0).2.1.1 (by decide)⟩
+
+/-- strings byte-wise: the first differing byte decides, a proper prefix comes first -/
+theorem cmpVal_str_bytes (p : List Nat) (x y : Nat) (r s : List Nat) :
+    Spec.cmpVal (.str p) (.str (p ++ y :: s)) = -1 ∧
+    (x < y → Spec.cmpVal (.str (p ++ x :: r)) (.str (p ++ y :: s)) = -1) ∧
+    (y < x → Spec.cmpVal (.str (p ++ x :: r)) (.str (p ++ y :: s)) = 1) := by
+  simp only [cmpVal_str]
+  refine ⟨cmpBytes_prefix p y s, fun h => ?_, fun h => ?_⟩
+  · rw [cmpBytes_append_diff p x y r s (by omega), if_pos h]
+  · rw [cmpBytes_append_diff p x y r s (by omega), if_neg (by omega)]
+
+/-- "ab" < "abc", "abd…" > "abc…" -/
+example : Spec.cmpVal (.str [97, 98]) (.str [97, 98, 99]) = -1 ∧
+    Spec.cmpVal (.str [97, 98, 100, 1]) (.str [97, 98, 99, 2, 3]) = 1 :=
+  ⟨(cmpVal_str_bytes [97, 98] 0 99 [] []).1, (cmpVal_str_bytes [97, 98] 100 99 [1] [2, 3]).2.2 (by decide)⟩
+
+/-- complex numbers: real part first, imaginary part when the real parts are `==` -/
+theorem cmpVal_cplx_parts (w a b c d : Nat) :
+    (fltEq w a c = false →
+      Spec.cmpVal (.cplx w a b) (.cplx w c d) = Spec.cmpVal (.flt w a) (.flt w c)) ∧
+    (fltEq w a c = true →
+      Spec.cmpVal (.cplx w a b) (.cplx w c d) = Spec.cmpVal (.flt w b) (.flt w d)) := by
+  simp only [cmpVal_cplx, cmpVal_flt]
+  constructor
+  · intro h
+    exact lex_of_ne _ (fun h0 => by rw [cmpFlt_eq_zero.1 h0] at h; cases h)
+  · intro h; rw [cmpFlt_eq_zero.2 h, lex_zero]
+
+/-- `1+2i < 2-1i` by the real parts, `1-1i < 1+2i` by the imaginary parts -/
+example : Spec.cmpVal (.cplx 64 f1 f2) (.cplx 64 f2 fm1) = -1 ∧
+    Spec.cmpVal (.cplx 64 f1 fm1) (.cplx 64 f1 f2) = -1 := by
+  constructor
+  · rw [(cmpVal_cplx_parts 64 f1 f2 f2 fm1).1 (by decide)]
+    exact (cmpVal_flt_lt 64 f1 f2).1 (by decide)
+  · rw [(cmpVal_cplx_parts 64 f1 fm1 f1 f2).2 (by decide)]
+    exact (cmpVal_flt_lt 64 fm1 f2).1 (by decide)
+
+/-- nil first: a nil pointer, slice or map is smaller than every non-nil one -/
+theorem cmpVal_nil_first (a sp : Nat) (v : Val) :
+    Spec.cmpVal .nilv (.ptr a v) = -1 ∧ Spec.cmpVal (.ptr a v) .nilv = 1 ∧
+    Spec.cmpVal .nilv (.slice a sp v) = -1 ∧ Spec.cmpVal (.slice a sp v) .nilv = 1 ∧
+    Spec.cmpVal .nilv (.map a v) = -1 ∧ Spec.cmpVal (.map a v) .nilv = 1 := by
+  simp [cmpVal_nil_left, cmpVal_nil_right]
+
+/-- a nil slice is smaller than the empty non-nil slice -/
+example : Spec.cmpVal .nilv (.slice 7 0 .snil) = -1 := (cmpVal_nil_first 7 0 .snil).2.2.1
+
+/-- shorter first: slices and maps are ordered by length before their contents are looked at -/
+theorem cmpVal_shorter_first (a sp b sp' : Nat) (xs ys : Val) (h : xs.slen < ys.slen) :
+    Spec.cmpVal (.slice a sp xs) (.slice b sp' ys) = -1 ∧
+    Spec.cmpVal (.slice b sp' ys) (.slice a sp xs) = 1 ∧
+    Spec.cmpVal (.map a xs) (.map b ys) = -1 ∧ Spec.cmpVal (.map b ys) (.map a xs) = 1 := by
+  have h1 : (xs.slen != ys.slen) = true := by simp only [bne_iff_ne, ne_eq]; omega
+  have h2 : (ys.slen != xs.slen) = true := by simp only [bne_iff_ne, ne_eq]; omega
+  have h3 : ¬ ys.slen < xs.slen := by omega
+  simp only [cmpVal_slice, cmpVal_map, h1, h2, h, h3, if_true, if_false, and_self]
+
+/-- `["z"] < ["a", "a"]` -/
+example : Spec.cmpVal (.slice 1 0 (.scons (.str [122]) .snil))
+    (.slice 2 0 (.scons (.str [97]) (.scons (.str [97]) .snil))) = -1 :=
+  (cmpVal_shorter_first 1 0 2 0 _ _ (by decide)).1
+
+/-- pointers (both non-nil) compare like their targets; addresses are ignored -/
+theorem cmpVal_ptr_target (a : Nat) (v : Val) (b : Nat) (w : Val) :
+    Spec.cmpVal (.ptr a v) (.ptr b w) = Spec.cmpVal v w := cmpVal_ptr a v b w
+
+example : Spec.cmpVal (.ptr 99 (.int 1)) (.ptr 3 (.int 2)) = -1 := by
+  rw [cmpVal_ptr_target]; exact (cmpVal_int_lt 1 2).1.2 (by decide)
+
+/-- sequences (struct fields, array / slice elements): equally long prefixes that compare 0 are
+skipped and the first position that compares non-zero decides -/
+theorem cmpSeq_first_diff (pre pre' a b r s : Val) (hl : pre.slen = pre'.slen)
+    (h0 : Spec.cmpSeq pre pre' = 0) (hne : Spec.cmpVal a b ≠ 0) :
+    Spec.cmpSeq (pre.sapp (.scons a r)) (pre'.sapp (.scons b s)) = Spec.cmpVal a b :=
+  cmpSeq_sapp pre pre' a b r s hl h0 hne
+
+/-- prefixes `[+0.0]` / `[-0.0]` compare 0; then `1 < 2` decides, whatever follows -/
+example : Spec.cmpSeq
+    (Val.sapp (.scons (.flt 64 f0) .snil) (.scons (.int 1) (.scons (.bool true) .snil)))
+    (Val.sapp (.scons (.flt 64 fm0) .snil) (.scons (.int 2) (.scons (.bool false) .snil))) = -1 := by
+  rw [cmpSeq_first_diff (.scons (.flt 64 f0) .snil) (.scons (.flt 64 fm0) .snil) _ _ _ _ (by decide)
+    (by cmp_eval [f0, fm0]) (by cmp_eval)]
+  cmp_eval
+
+/-- replacing one field of a struct (NaN-free fields before it): the structs compare like the two
+field values -/
+theorem cmpVal_struct_field (pre a b r s : Val) (np : nanFree pre = true)
+    (hne : Spec.cmpVal a b ≠ 0) :
+    Spec.cmpVal (.struct (pre.sapp (.scons a r))) (.struct (pre.sapp (.scons b s))) =
+      Spec.cmpVal a b := by
+  rw [cmpVal_struct]; exact cmpSeq_replace pre a b r s np hne
+
+/-- `w1` is `x1` with the field `Next` (second field) set to nil: `w1 < x1` because nil is first -/
+example : Spec.cmpVal w1 x1 = -1 := by
+  have := cmpVal_struct_field (.scons (.int 1) .snil) .nilv (.ptr 10 leaf)
+    (.scons (.slice 11 3 (.scons hi .snil))
+      (.scons (.map 12 (.scons (.pair ka (pt f1 f2)) (.scons (.pair kb (pt f0 fm0)) .snil)))
+      (.scons (.cplx 64 f1 f2) (.scons (.bool false)
+      (.scons (.arr (.scons (.int 1) (.scons (.int 2) .snil))) .snil)))))
+    (.scons (.slice 11 3 (.scons hi .snil))
+      (.scons (.map 12 (.scons (.pair ka (pt f1 f2)) (.scons (.pair kb (pt f0 fm0)) .snil)))
+      (.scons (.cplx 64 f1 f2) (.scons (.bool false)
+      (.scons (.arr (.scons (.int 1) (.scons (.int 2) .snil))) .snil)))))
+    (by decide) (by rw [(cmpVal_nil_first 10 0 leaf).1]; decide)
+  rw [(cmpVal_nil_first 10 0 leaf).1] at this
+  exact this
+
+/-- replacing one element of an array -/
+theorem cmpVal_arr_elem (pre a b r s : Val) (np : nanFree pre = true)
+    (hne : Spec.cmpVal a b ≠ 0) :
+    Spec.cmpVal (.arr (pre.sapp (.scons a r))) (.arr (pre.sapp (.scons b s))) =
+      Spec.cmpVal a b := by
+  rw [cmpVal_arr]; exact cmpSeq_replace pre a b r s np hne
+
+/-- `[7, 1, 9] < [7, 2, 0]` -/
+example : Spec.cmpVal (.arr (.scons (.int 7) (.scons (.int 1) (.scons (.int 9) .snil))))
+    (.arr (.scons (.int 7) (.scons (.int 2) (.scons (.int 0) .snil)))) = -1 := by
+  have := cmpVal_arr_elem (.scons (.int 7) .snil) (.int 1) (.int 2) (.scons (.int 9) .snil)
+    (.scons (.int 0) .snil) (by decide) (by cmp_eval)
+  rw [(cmpVal_int_lt 1 2).1.2 (by decide)] at this
+  exact this
+
+/-- replacing one element of a slice (same length) -/
+theorem cmpVal_slice_elem (p sp q sp' : Nat) (pre a b r s : Val) (np : nanFree pre = true)
+    (hl : r.slen = s.slen) (hne : Spec.cmpVal a b ≠ 0) :
+    Spec.cmpVal (.slice p sp (pre.sapp (.scons a r))) (.slice q sp' (pre.sapp (.scons b s))) =
+      Spec.cmpVal a b := by
+  rw [cmpVal_slice, len_eq]
+  · exact cmpSeq_replace pre a b r s np hne
+  · simp only [slen_sapp, Val.slen, hl]
+
+/-- `["hi", "a"] < ["hi", "b"]`, backing arrays and capacities ignored -/
+example : Spec.cmpVal (.slice 1 5 (.scons hi (.scons ka .snil)))
+    (.slice 2 0 (.scons hi (.scons kb .snil))) = -1 := by
+  have := cmpVal_slice_elem 1 5 2 0 (.scons hi .snil) ka kb .snil .snil (by decide) rfl
+    (by cmp_eval [ka, kb])
+  rw [show Spec.cmpVal ka kb = -1 by cmp_eval [ka, kb]] at this
+  exact this
+
+/-- replacing the value stored under one key of a map (NaN-free entries, `k == k`): the maps
+compare like the two values — whatever the insertion order, because both sides are sorted by key -/
+theorem cmpVal_map_value (a b : Nat) (p q k v w : Val)
+    (hs : isEntries (p.sapp (.scons (.pair k v) q)) = true)
+    (ns : nanFree (p.sapp (.scons (.pair k v) q)) = true) (hk : goEq k k = true)
+    (hne : Spec.cmpVal v w ≠ 0) :
+    Spec.cmpVal (.map a (p.sapp (.scons (.pair k v) q))) (.map b (p.sapp (.scons (.pair k w) q))) =
+      Spec.cmpVal v w :=
+  cmpVal_map_replace a b p q k v w hs ns hk hne
+
+/-- `{"b": (0,-0), "a": (1,2)}` vs `{"b": (0,1), "a": (1,2)}` -/
+example : Spec.cmpVal (.map 1 (.scons (.pair kb (pt f0 fm0)) (.scons (.pair ka (pt f1 f2)) .snil)))
+    (.map 2 (.scons (.pair kb (pt f0 f1)) (.scons (.pair ka (pt f1 f2)) .snil))) = -1 := by
+  have := cmpVal_map_value 1 2 .snil (.scons (.pair ka (pt f1 f2)) .snil) kb (pt f0 fm0) (pt f0 f1)
+    (by decide) (by decide) (by decide) (by cmp_eval [pt, f0, fm0, f1])
+  rw [show Spec.cmpVal (pt f0 fm0) (pt f0 f1) = -1 by cmp_eval [pt, f0, fm0, f1]] at this
+  exact this
+
+/-- maps in general, on the key-sorted entry sequences: equally long prefixes that compare 0 are
+skipped; then either the keys are `==` and the values decide, or the keys differ and decide -/
+theorem cmpEntries_first_diff (pre pre' k v k' w r s : Val) (hp : isEntries pre = true)
+    (hp' : isEntries pre' = true) (hl : pre.slen = pre'.slen)
+    (h0 : Spec.cmpEntries pre pre' = 0) :
+    (goEq k k' = true → Spec.cmpVal v w ≠ 0 →
+      Spec.cmpEntries (pre.sapp (.scons (.pair k v) r)) (pre'.sapp (.scons (.pair k' w) s)) =
+        Spec.cmpVal v w) ∧
+    (goEq k k' = false → cmpKey k k' ≠ 0 →
+      Spec.cmpEntries (pre.sapp (.scons (.pair k v) r)) (pre'.sapp (.scons (.pair k' w) s)) =
+        cmpKey k k') :=
+  ⟨cmpEntries_sapp pre pre' k v k' w r s hp hp' hl h0,
+   cmpEntries_sapp_key pre pre' k v k' w r s hp hp' hl h0⟩
+
+/-- `{"a": 1, "b": 5}` vs `{"a": 1, "c": 0}`: after the equal entry `"a"` the keys `"b" < "c"`
+decide -/
+example : Spec.cmpEntries
+    (Val.sapp (.scons (.pair ka (.int 1)) .snil) (.scons (.pair kb (.int 5)) .snil))
+    (Val.sapp (.scons (.pair ka (.int 1)) .snil) (.scons (.pair (.str [99]) (.int 0)) .snil))
+      = -1 := by
+  rw [(cmpEntries_first_diff _ _ kb (.int 5) (.str [99]) (.int 0) .snil .snil (by decide)
+    (by decide) rfl (by cmp_eval [ka])).2 (by decide) (by decide)]
+  decide
+
 end Goderive.C03
